@@ -272,7 +272,7 @@ def playback(unit, h, scratch, workdir):
     """Re-run the failing harness with concrete playback, insert the generated test into the scratch source and run it natively."""
     if h.get('no_playback'):
         return dict(attempted=False, reproduced=False, text='playback not applicable for this harness (stubbed functions have no native counterpart): ' + str(h.get('no_playback')))
-    cmd = kani_cmd(unit, [h['name']], ['--concrete-playback=inplace', '--harness-timeout', f"{h.get('timeout', 300)}s"])
+    cmd = kani_cmd(unit, [h['name']], ['-Z', 'concrete-playback', '--concrete-playback=inplace', '--harness-timeout', f"{h.get('timeout', 300)}s"])
     cmd = [c for c in cmd if c != 'terse']
     i = cmd.index('--output-format')
     cmd[i:i + 1] = ['--output-format', 'regular']
